@@ -9,7 +9,7 @@ real NumPy computes the same thing is what the correspondence streams check on e
 namespace QuantemModel.Nd
 
 /-- error kinds (message text is never compared) -/
-inductive Err | value | type | index | zeroDiv
+inductive Err | value | type | index | zeroDiv | attribute
   deriving DecidableEq, Repr, Inhabited
 
 /-- number of elements of a shape -/
